@@ -194,7 +194,11 @@ class Ctx:
 
 def run_repo_tests_under_monitors(ctx, paths, prefix, workers=1, timeout=1500, only=None, semantic=()):
     """Run some of the repository's own tests with the class-level monitors of vlib.livemon switched on and feed what the monitors
-    observed into ctx (the tests' own pass/fail is ignored).  `only`: keep monitors whose name starts with one of these prefixes."""
+    observed into ctx (the tests' own pass/fail is ignored).  `only`: keep monitors whose name starts with one of these prefixes.
+    Directories are expanded to their test files; with workers > 1 the files are run by that many concurrent pytest processes (no
+    xdist: its workers do not get on with the wrapped classes), each in its own process group so that the time cap can end it cleanly."""
+    import glob
+    import signal
     import tempfile
     from vlib import livemon
     fd, out = tempfile.mkstemp(prefix="livemon_", suffix=".jsonl", dir=OUT)
@@ -204,10 +208,37 @@ def run_repo_tests_under_monitors(ctx, paths, prefix, workers=1, timeout=1500, o
     env["VERIF_LIVEMON_OUT"] = out
     env["VERIF_LIVEMON_SEMANTIC"] = ",".join(semantic)
     env.setdefault("OMP_NUM_THREADS", "1")
-    cmd = [PY, "-m", "pytest", "-q", "-p", "no:cacheprovider", "-p", "vlib.pytest_livemon", "--timeout=600"] + (["-n", str(workers)] if workers > 1 else []) + list(paths)
-    try:
-        subprocess.run(cmd, cwd=REPO, env=env, stdout=subprocess.DEVNULL, stderr=subprocess.DEVNULL, timeout=timeout)
-    except subprocess.TimeoutExpired:
+    extra = []
+    files = []
+    it = iter(paths)
+    for p in it:
+        if p.startswith("-"):
+            extra += [p, next(it)]
+        elif p.endswith(".py"):
+            files.append(p)
+        else:
+            files += sorted(os.path.relpath(f, REPO) for f in glob.glob(os.path.join(REPO, p, "**", "test_*.py"), recursive=True))
+    base = [PY, "-m", "pytest", "-q", "-p", "no:cacheprovider", "-p", "vlib.pytest_livemon", "--timeout=600"] + extra
+    jobs = [files] if workers <= 1 else [[f] for f in files]
+    t_end = time.time() + timeout
+    running, pending, capped = [], list(jobs), False
+    while pending or running:
+        while pending and len(running) < max(1, workers):
+            j = pending.pop(0)
+            running.append(subprocess.Popen(base + j, cwd=REPO, env=env, stdout=subprocess.DEVNULL, stderr=subprocess.DEVNULL, start_new_session=True))
+        running = [p_ for p_ in running if p_.poll() is None]
+        if time.time() > t_end:
+            capped = True
+            for p_ in running:
+                try:
+                    os.killpg(p_.pid, signal.SIGKILL)
+                except OSError:
+                    pass
+            for p_ in running:
+                p_.wait()
+            break
+        time.sleep(0.5)
+    if capped:
         # a workload cap, not a verdict: the monitors flush periodically, what they saw so far is used (REQUIRED decides)
         ctx.note("repo_tests_time_cap_reached")
     counts, viol = livemon.read_results(out)
@@ -228,6 +259,7 @@ def run_repo_tests_under_monitors(ctx, paths, prefix, workers=1, timeout=1500, o
         ctx.violation(prefix + name, f"class-level monitor '{name}' fired while the repository's own tests were running", v)
     ctx.ev(prefix + "observations_total", 0)
     ctx.monitors[prefix + "observations_total"] = ctx.monitors.get(prefix + "observations_total", 0) + total
+    ctx.note("repo_test_files_run", len(files))
     return total
 
 
